@@ -3,6 +3,7 @@ import Proofs.C16Common
 import Proofs.C16Msgpack
 import Proofs.C16Cbor
 import Proofs.C16Bencode
+import Proofs.C16Bson
 import FqModel.Serial.SourcePins
 import FqModel.Gen.SerialTables
 /-!
@@ -28,9 +29,12 @@ import FqModel.Gen.SerialTables
           cbor-indef-string-break) — proved are `cbor_*_partial` (all wire trees without such strings, which
           by `cbor_all_values` still covers every in-domain value) and the full (a)–(c) for the one-line
           repair (`cborFixed_*`; same U+FEFF restriction).
-  NOT modelled / not proved (monitored by the harness only): bson, asn1_ber and the text formats
-  (json, jsonl, yaml, toml, xml, csv); msgpack ext types and cbor semantic tags (their torepr is not a
-  JSON-like value).
+  bson: `bson_roundtrip_partial` (names/strings without NUL — `bson_string_nul_cut_witness`, known finding
+  bson-string-nul-cut — and without leading U+FEFF), `bson_prefix_fails`, `bson_trailing`.
+  NOT modelled / not proved (monitored by the harness only): asn1_ber and the text formats
+  (json, jsonl, yaml, toml, xml, csv); cbor semantic tags (their torepr is the decode tree, not a JSON-like
+  value).  msgpack ext8/fixext (raw byte string) and cbor undefined/unassigned simple values (null) are wire
+  forms of the theorems; ext16/ext32 are mis-decoded (`msgpack_ext_length_witness`, known finding).
   Regenerated facts: `msgpack_rows_regenerated`, `msgpack_table_partition`, `msgpack_symbols_regenerated`,
   `*_source_regenerated`, `cbor_constants_regenerated` tie the models to the current source text.
 -/
@@ -62,6 +66,15 @@ theorem msgpack_full_roundtrip_false :
   rw [h2] at h1
   have h3 := congrArg (fun r => match r with | Res.ok (V.str s, _) => s.length | _ => 0) h1
   simp at h3
+
+/-- KNOWN FINDING `msgpack-ext-length`, pinned by evaluation: `extFn(lengthBits)` ignores its argument and always
+    reads an 8-bit length, so ext16 `c8 0003 05 "abc"` is decoded as length 0, type 3, empty data, and the rest
+    (`05 61 62 63`) is left over as trailing data; ext8 `c7 03 05 "abc"` is right -/
+theorem msgpack_ext_length_witness :
+    decode [0xc8, 0x00, 0x03, 0x05, 0x61, 0x62, 0x63] = .ok (.str [], [0x05, 0x61, 0x62, 0x63]) ∧
+    decode [0xc9, 0x00, 0x00, 0x00, 0x03, 0x05, 0x61, 0x62, 0x63] = .ok (.str [], [0x00, 0x03, 0x05, 0x61, 0x62, 0x63]) ∧
+    decode [0xc7, 0x03, 0x05, 0x61, 0x62, 0x63] = .ok (.str [0x61, 0x62, 0x63], []) :=
+  ⟨resEq_sound _ _ (by decide +kernel), resEq_sound _ _ (by decide +kernel), resEq_sound _ _ (by decide +kernel)⟩
 
 /-- round trip, for EVERY wire tree `x` (a value with a wire form chosen at every node) and every trailing
     data: `fq -d msgpack torepr` of the encoding returns the value (byte strings as strings) and leaves
@@ -108,6 +121,7 @@ example : valid (.map .l16 [(.str .l8 [0x6b], .arr .fix [.int .i32 (-5), .int .u
 example : inDomain (.map [(.str [0x6b], .arr [.int (-(2^63)), .float 0x7ff8000000000001, .bytes [0x80]])]) = true := by
   decide +kernel
 example : (encode (.arr .l16 [.int .u8 200, .str .l8 [0x61]])).length = 8 := by decide +kernel
+example : valid (.arr .fix [.ext8 5 [0xff, 0x00], .fixext 0xff [1, 2, 3, 4]]) = true := by decide +kernel
 
 end msgpack
 
@@ -143,6 +157,10 @@ theorem cbor_full_roundtrip_false :
   rw [h2] at h1
   have h3 := congrArg (fun r => match r with | Res.ok (_, rest) => rest.length | Res.err _ => 0) h1
   simp at h3
+
+/-- cbor.go "TODO: future": a simple value with a one-byte argument (`f8 nn`) does not consume the argument -/
+theorem cbor_simple8_witness : decode [0xf8, 0x20] = .ok (.null, [0x20]) :=
+  resEq_sound _ _ (by decide +kernel)
 
 /-- the fix of DESIGN §1.8 #10 (commit fa784167) is what the model has: an indefinite-length array of 40
     elements decodes to 40 elements (the old loop stopped after 31) -/
@@ -204,6 +222,7 @@ example : valid (.arrI [.int .h16 (-300), .mapI [(.str .h8 [0x6b], .f16 0x3c00)]
     .int .direct 23, .null]) = true ∧
     noIndefStr (.arrI [.int .h16 (-300), .mapI [(.str .h8 [0x6b], .f16 0x3c00)], .arr .h64 [.bytes .h32 [1, 2]],
     .int .direct 23, .null]) = true := by decide +kernel
+example : valid (.arr .direct [.undefined, .simple 19, .simple 0]) = true := by decide +kernel
 example : valid (.arr .direct [.strI [(.h8, [0x61]), (.direct, []), (.direct, [0xc3, 0xa9])], .bytesI []]) = true := by
   decide +kernel
 example : inDomain (.map [(.str [0x6b], .arr [.int (-(2^64)), .int (2^64 - 1), .float 1, .bytes [0x80]])]) = true := by
@@ -250,6 +269,63 @@ example : inDomain (.map [(.str [0x6b], .arr [.int (-(2^63)), .int (2^63 - 1), .
   decide +kernel
 
 end bencode
+
+/-! ## bson -/
+section bson
+open FqModel.Serial.Bson
+
+/-- KNOWN FINDING `bson-string-nul-cut`, pinned by evaluation: a bson string is length-prefixed and may contain
+    U+0000, but fq reads it with `d.FieldUTF8NullFixedLen` and cuts it at the first NUL: {"k": "a\u0000b"} comes
+    back as {"k": "a"}.  Also pinned: the document terminator is not checked (`UintValidate` only annotates) and
+    a binary value comes back as the raw bytes (`tovalue`, not `tostring`). -/
+theorem bson_string_nul_cut_witness :
+    decode [0x10, 0, 0, 0, 0x02, 0x6b, 0, 4, 0, 0, 0, 0x61, 0x00, 0x62, 0, 0]
+      = .ok (.map [(.str [0x6b], .str [0x61])], []) ∧
+    decode [5, 0, 0, 0, 1] = .ok (.map [], []) ∧
+    decode [0x0e, 0, 0, 0, 0x05, 0x76, 0, 1, 0, 0, 0, 0x80, 0xff, 0]
+      = .ok (.map [(.str [0x76], .str [0xff])], []) :=
+  ⟨resEq_sound _ _ (by decide +kernel), resEq_sound _ _ (by decide +kernel), resEq_sound _ _ (by decide +kernel)⟩
+
+/-- round trip for every document tree (all element types fq decodes; int32/int64/datetime/timestamp,
+    null/undefined/minkey/maxkey, string/javascript/regexp, binary/objectid/decimal128, any non-zero byte for
+    true, free array element names, any terminator byte) and every trailing data.
+    MISSING for the full statement: `valid` requires names and strings to contain no NUL
+    (`bson_string_nul_cut_witness`; for names that is bson's own rule, for strings it is the known finding)
+    and to be fixed points of `d.FieldUTF8` (no leading U+FEFF: known finding utf8-bom-stripped). -/
+theorem bson_roundtrip_partial (kvs : List (Bytes × W)) (t : UInt8) (h : valid (.doc kvs t) = true) (rest : Bytes) :
+    decode (encode kvs t ++ rest) = .ok (norm (value (.doc kvs t)), rest) := by
+  have h' := h
+  simp only [valid, Bool.and_eq_true, decide_eq_true_eq] at h'
+  unfold decode encode
+  have hl : (encPayload (.doc kvs t)).length = (encElems kvs).length + 5 := Proofs.C16.Bson.encPayload_doc_length kvs t
+  rw [Proofs.C16.Bson.main ((encPayload (.doc kvs t) ++ rest).length + 1) kvs t h'.1.1 h'.2
+    (by simp only [List.length_append, hl]; omega) rest]
+  simp only [Proofs.C16.Bson.pairs_map]
+  exact withRepr_ok _ _ (Proofs.C16.Bson.reprOK_value (.doc kvs t) h)
+
+/-- every strict prefix of a document is a decode error (the size header frames the whole document) -/
+theorem bson_prefix_fails (kvs : List (Bytes × W)) (t : UInt8) (h : valid (.doc kvs t) = true) (k : Nat)
+    (hk : k < (encode kvs t).length) : decode ((encode kvs t).take k) = .err .eof := by
+  simp only [valid, Bool.and_eq_true, decide_eq_true_eq] at h
+  unfold decode
+  unfold encode at hk ⊢
+  have hl : ((encPayload (.doc kvs t)).take k).length = k := by simp [List.length_take]; omega
+  rw [hl, Proofs.C16.Bson.prefix_fails k kvs t h.2 k hk]
+  rfl
+
+theorem bson_trailing (kvs : List (Bytes × W)) (t : UInt8) (h : valid (.doc kvs t) = true) (rest : Bytes) :
+    ∃ v, decode (encode kvs t) = .ok (v, []) ∧ decode (encode kvs t ++ rest) = .ok (v, rest) := by
+  refine ⟨norm (value (.doc kvs t)), ?_, bson_roundtrip_partial kvs t h rest⟩
+  simpa using bson_roundtrip_partial kvs t h []
+
+/-! non-vacuity: nested document and array, both integer widths, alternative null/true/terminator forms -/
+example : valid (.doc [([0x61], .int32 (-5)), ([0x62], .arr [([0x78], .int64 (2^40)), ([0x78], .bool 0x80)] 0),
+    ([0x63], .doc [([], .str [0xc3, 0xa9]), ([0x7a], .undefined), ([0x79], .bin 4 [0xff, 0x00])] 7),
+    ([0x64], .double 0x7ff8000000000001), ([0x65], .regexp [0x61] [0x69]), ([0x66], .timestamp (2^64 - 1))] 0) = true := by
+  decide +kernel
+example : encode [([0x61], .bool 2)] 0 = [9, 0, 0, 0, 0x08, 0x61, 0, 2, 0] := by decide +kernel
+
+end bson
 
 /-! ## regenerated facts (FqModel/Gen/SerialTables.lean is rewritten from /repo on every run) -/
 section regenerated
@@ -305,6 +381,15 @@ theorem bencode_source_regenerated :
     FqModel.Gen.SerialTables.bencodeStrIntUntil = Pins.bencodeStrIntUntil ∧
     FqModel.Gen.SerialTables.bencodeValue = Pins.bencodeValue ∧
     FqModel.Gen.SerialTables.bencodeJq = Pins.bencodeJq := by
+  decide +kernel
+
+theorem bson_source_regenerated :
+    FqModel.Gen.SerialTables.bsonDocument = Pins.bsonDocument ∧
+    FqModel.Gen.SerialTables.bsonDecode = Pins.bsonDecode ∧
+    FqModel.Gen.SerialTables.bsonJq = Pins.bsonJq := by
+  decide +kernel
+
+theorem bson_constants_regenerated : FqModel.Gen.SerialTables.bsonConsts = Pins.bsonConsts := by
   decide +kernel
 
 end regenerated
